@@ -167,8 +167,8 @@ class C04(PropertyCheck):
         "sepB (hypothesis of C04_skeleton_stable) is re-evaluated by the driver through sepFast (= sepB, "
         "C04_sepFast_eq) when width * width * V <= 2^18, not beyond",
         "a finite path that was not ended by eos has the length of the step limit (all slots if finish_all_paths "
-        "or eos unset, the best slot otherwise): predicate C04.length, tie-agnostic, a consequence of the modelled "
-        "loop (not a separate theorem)",
+        "or eos unset, the best slot otherwise): predicate C04.length, tie-agnostic; for the model: theorem "
+        "C04_length",
     ]
     exhaustive = {"quick": False, "thorough": False}
     quick_budget_s = 70
@@ -331,10 +331,10 @@ class C04(PropertyCheck):
             if kind == "rec":
                 lm["h0"] = rng.random() < 0.8
             if kind == "lookup":
-                # a unigram LookupLanguageModel over more than 256 entries cannot be constructed (numpy 2:
-                # "Python integer 256 out of bounds for uint8" in _build_trie; reported, outside C04)
-                lm.update({"order": rng.choice([1, 2, 2, 3] if V < 256 else [2, 2, 3]),
-                           "sos": rng.choice([-1, 0, V - 1, V]), "table_seed": rng.randrange(1, 1 << 30)})
+                # (a unigram table over more than 257 entries could not be constructed before
+                # fixes/C04-lookup-unigram-large-vocab.diff: corpus case lookup_unigram_table_258_entries)
+                lm.update({"order": rng.choice([1, 2, 2, 3]), "sos": rng.choice([-1, 0, V - 1, V]),
+                           "table_seed": rng.randrange(1, 1 << 30)})
             else:
                 lm["beta"] = rng.choice([0.5, 1.0, 0.25])
             via = "nohook"
@@ -929,7 +929,10 @@ class C04(PropertyCheck):
             tables = self._cache["tables"]
             impl = self._cache.get("impl")
         else:
-            tables, _, _ = self._tables(case)
+            try:
+                tables, _, _ = self._tables(case)
+            except Exception:       # the language model cannot even be constructed: the predicate reports it
+                return None
             impl = None
         if impl is None:
             from common.framework import safe_impl
@@ -1050,6 +1053,11 @@ class C04(PropertyCheck):
                     # degenerate: all-(-inf) slots left to arbitrary tie-breaking; see design note
                     return [(f"search raised {impl['error']} with -inf slots in the beam: {impl.get('message')}",
                              "C04.search.raises_with_neginf_slots")]
+                if impl["error"] == "OverflowError" and case["lm"].get("kind") == "lookup" \
+                        and case["lm"].get("order") == 1 and "uint8" in str(impl.get("message")):
+                    # numpy 2: the unigram indices are converted to the (uint8) offset type nothing reads
+                    return [(f"the unigram LookupLanguageModel over {case['V']} tokens cannot be constructed: "
+                             f"{impl.get('message')}", "C04.lookup.unigram_table_not_constructible")]
                 return [(f"search raised {impl['error']}: {impl.get('message')}", None)]
             return []
         if norm_eos(case["V"], case["eos"]) == "invalid":
